@@ -91,9 +91,77 @@ def sched_monitor(sc, out):
     return bad, named, any(st == 'CANCELED' for st in final.values())
 
 
+def run_request(rp, known, arg, via_task=False):
+    """the real TaskManager.cancel_tasks (or Task.cancel) with publish() captured; known = [(uid, state)]"""
+    import threading
+    from radical.pilot import constants as rpc
+    tmgr = object.__new__(rp.TaskManager)
+    tmgr._uid, tmgr._log, tmgr._prof = 'tmgr.0000', rpload.NullLog(), rpload.NullLog()
+    tmgr._tasks_lock = threading.RLock()
+    tmgr._tasks = {}
+    for uid, state in known:
+        t = object.__new__(rp.Task)
+        t._uid, t._state, t._tmgr = 'task.%06d' % uid, state, tmgr
+        tmgr._tasks[t._uid] = t
+    sent = []
+    tmgr.publish = lambda pubsub, msg, topic=None: sent.append((pubsub, msg))
+    if via_task:
+        tmgr._tasks['task.%06d' % arg].cancel()
+    elif arg is None:
+        tmgr.cancel_tasks()
+    elif isinstance(arg, list):
+        tmgr.cancel_tasks(['task.%06d' % u for u in arg])
+    else:
+        tmgr.cancel_tasks('task.%06d' % arg)
+    if len(sent) != 1 or sent[0][0] != rpc.CONTROL_PUBSUB or sent[0][1].get('cmd') != 'cancel_tasks':
+        return 'unexpected: %r' % (sent,)
+    return [int(u.split('.')[1]) for u in sent[0][1]['arg']['uids']]
+
+
+def request_cases(rp, ctx):
+    """client side: which tasks a cancel request names (tasks in every state, incl. all named ones final)"""
+    from radical.pilot import states as rps
+    rng = ctx.rng
+    states = [rps.NEW, rps.TMGR_SCHEDULING, rps.AGENT_SCHEDULING, rps.AGENT_EXECUTING, rps.DONE, rps.FAILED, rps.CANCELED]
+    ops, impl = [], []
+    cases = [([(0, rps.DONE), (1, rps.AGENT_EXECUTING), (2, rps.AGENT_SCHEDULING)], 0, True),     # cancel after exit
+             ([(0, rps.CANCELED), (1, rps.AGENT_EXECUTING)], [0], False),                           # repeated cancel
+             ([(0, rps.DONE), (1, rps.FAILED), (2, rps.NEW)], [0, 1], False)]
+    for _ in range(ctx.n(300, 6000)):
+        n = rng.randint(1, 5)
+        known = [(u, rng.choice(states)) for u in rng.sample(range(8), n)]
+        r = rng.random()
+        if r < 0.15:   arg, via = None, False
+        elif r < 0.45: arg, via = rng.choice(known)[0], rng.random() < 0.5
+        elif r < 0.5:  arg, via = [], False
+        else:
+            arg, via = rng.sample([k[0] for k in known] + [9], rng.randint(1, min(3, n))), False
+        cases.append((known, arg, via))
+    for known, arg, via in cases:
+        got = run_request(rp, known, arg, via)
+        op = {'op': 'request', 'known': [k[0] for k in known], 'arg': arg}
+        ops.append(op); impl.append(got)
+        named = None if (arg is None or arg == []) else set(arg if isinstance(arg, list) else [arg])
+        ctx.case({'request': op, 'states': [k[1] for k in known], 'via_task': via},
+                 nontrivial=named is not None and any(s in rps.FINAL for u, s in known if u in named))
+        if isinstance(got, list) and named is not None:
+            extra = [u for u in got if u not in named]
+            if extra:
+                ctx.fail('request:bystander-named-by-cancel-request',
+                         'cancel of %s (states %s) publishes a request naming %s' % (sorted(named), dict(known), got),
+                         {'kind': 'request', 'known': [list(k) for k in known], 'arg': arg, 'via_task': via}, observed=got)
+            if [u for u in named if u not in got]:
+                ctx.fail('request:named-task-not-in-cancel-request', 'cancel of %s publishes %s' % (sorted(named), got),
+                         {'kind': 'request', 'known': [list(k) for k in known], 'arg': arg, 'via_task': via}, observed=got)
+    common.compare(ctx, 'cancel', ops, impl, what='real TaskManager.cancel_tasks / Task.cancel: uids named by the published request')
+
+
 def run(ctx):
     rp  = rpload.load()
     rng = ctx.rng
+
+    # -- (0) the client-side request ------------------------------------------------------
+    request_cases(rp, ctx)
 
     # -- (a) intake filter ------------------------------------------------------------
     ops, impl = [], []
@@ -176,6 +244,11 @@ def replay(ctx, data):
         res, unsched = run_intake(rp, i['op']['cl'], i['op']['uids'], i['op']['things'])
         print('observed:', res, 'unschedule published for', unsched)
         return all(t in unsched for t in res['canceled'])
+    if i['kind'] == 'request':
+        got = run_request(rp, [tuple(k) for k in i['known']], i['arg'], i['via_task'])
+        named = set(i['arg'] if isinstance(i['arg'], list) else [i['arg']])
+        print('observed: request names', got)
+        return isinstance(got, list) and set(got) == named
     if i['kind'] == 'exec':
         obs, done, rec, quiet = c07.run_schedule(rp, i['choices'])
         print(obs[-1]); return c07.monitor(obs, rec, quiet, True) is None
